@@ -473,3 +473,44 @@ Proof.
     + cbn [schema fld fldc opt]. repeat (apply Forall2_cons); [.. | apply Forall2_nil]; conf1.
     + repeat (apply Forall_cons); [.. | apply Forall_nil]; exact I.
 Qed.
+
+(* ------------------------------------------------------------------ the statements of Props/C12.v *)
+(* what is assumed of the abstract SWHID printer / parser (property C08) *)
+Definition swhid_contract (swhid_str : swhid_kind -> text -> bytes -> text)
+                          (swhid_parse : swhid_kind -> text -> result (text * bytes)) : Prop :=
+  (forall k t i, In t (swhid_tags k) -> length i = 20%nat -> wf_bytes i = true ->
+                 swhid_parse k (swhid_str k t i) = Ok (t, i))
+  /\ (forall k t i, swhid_str k t i <> []).
+
+Definition roundtrip_of (c : cls) : Prop :=
+  forall idf swhid_str swhid_parse dateparse, swhid_contract swhid_str swhid_parse ->
+  forall fs, wf idf (VObj c fs) ->
+  fst (from_dict idf swhid_str swhid_parse dateparse c (to_dict swhid_str (VObj c fs))) = Ok (VObj c fs).
+
+Lemma roundtrip_of_all : forall c, roundtrip_of c.
+Proof. intros c idf ss sp dp [H1 H2] fs H. exact (roundtrip_class idf ss sp dp H1 H2 c fs H). Qed.
+
+Lemma roundtrip_all_c : forall idf swhid_str swhid_parse dateparse,
+  swhid_contract swhid_str swhid_parse ->
+  forall c fs, wf idf (VObj c fs) ->
+  from_dict idf swhid_str swhid_parse dateparse c (to_dict swhid_str (VObj c fs)) =
+  (Ok (VObj c fs), to_dict swhid_str (VObj c fs)).
+Proof. intros idf ss sp dp [H1 H2]. exact (roundtrip_all idf ss sp dp H1 H2). Qed.
+
+Lemma same_id_c : forall idf swhid_str swhid_parse dateparse,
+  swhid_contract swhid_str swhid_parse ->
+  forall c fs, wf idf (VObj c fs) ->
+  exists fs', fst (from_dict idf swhid_str swhid_parse dateparse c (to_dict swhid_str (VObj c fs))) = Ok (VObj c fs')
+              /\ fget k_id fs' = fget k_id fs /\ idf c (fdel k_id fs') = idf c (fdel k_id fs)
+              /\ fget k_sha1_git fs' = fget k_sha1_git fs.
+Proof. intros idf ss sp dp [H1 H2]. exact (same_id idf ss sp dp H1 H2). Qed.
+
+Lemma to_dict_idempotent_c : forall idf swhid_str swhid_parse dateparse,
+  swhid_contract swhid_str swhid_parse ->
+  forall c fs, wf idf (VObj c fs) ->
+  exists o2, fst (from_dict idf swhid_str swhid_parse dateparse c (to_dict swhid_str (VObj c fs))) = Ok o2
+             /\ to_dict swhid_str o2 = to_dict swhid_str (VObj c fs).
+Proof. intros idf ss sp dp [H1 H2]. exact (to_dict_idempotent idf ss sp dp H1 H2). Qed.
+
+Lemma swhid_contract_c : swhid_contract swhid_str_c swhid_parse_c.
+Proof. exact (conj swhid_c_pair_ok swhid_c_nonempty). Qed.
